@@ -3,4 +3,7 @@
 #![allow(dead_code, unused_imports, clippy::all)]
 
 pub mod util;
+pub mod env;
+pub mod c12_sanitize;
+pub mod c20_skip_stacks;
 pub mod c15_thread_names;
